@@ -5,7 +5,7 @@ CONSTANTS
   MaxFrames = 8
   Sizes <- SizesSim
   RelSizes = TRUE
-  MaxRandSize = 4000
+  MaxRandPk = 12
   Rates <- RatesAll
   Starts <- StartsWrap
   Deltas <- DeltasSim
@@ -18,8 +18,8 @@ CONSTANTS
   Pads = TRUE
   Sample = TRUE
   Emit = TRUE
-  InitSample = 0
+  InitSample = 400
 INIT Init
 NEXT Next
-INVARIANTS TypeOK ModelReadBack ModelHeader ModelCount ModelPts ModelPremiseAssemblesAll ModelKeyGate ModelWholeFrames EmitVec
+INVARIANTS TypeOK SimInv EmitVec
 CHECK_DEADLOCK FALSE
